@@ -53,12 +53,14 @@ def cfg(compiler, opt, std='c++17', abacus=False, **kw):
 
 # clang-O2 mirrors a CMake Release build (-DNDEBUG): code hidden in assert() is a configuration dimension too
 # the clang configuration mirrors a release build of a project that uses the compiler defaults: GNU dialect (no __STRICT_ANSI__),
-# -DNDEBUG, and -funsigned-char (the default on ARM/PowerPC Linux): code hidden behind those switches is a configuration dimension too
+# -DNDEBUG, -funsigned-char (the default on ARM/PowerPC Linux) and -fno-math-errno (math_errhandling loses MATH_ERRNO; implied by
+# -ffast-math but harmless to IEEE semantics on its own): code hidden behind those switches is a configuration dimension too.
+# The forced-constant-evaluation configuration is also the ISO-dialect -march=native one (FP_FAST_FMA, __FMA__, __AVX2__, ...).
 FORCE_CE = ['-include', os.path.join(HARNESS, 'force_ce.h')]   # harness/force_ce.h: is_constant_evaluated() answers true at run time
 # gcc-O0: umbrella header, GNU dialect, -ftrapv (signed overflow aborts in this uninstrumented build for every monitor's inputs),
 # _GLIBCXX_ASSERTIONS (std::array bounds)
-QUICK_CFGS = [cfg('g++', '-O0', 'gnu++17', extra=['-DVERIF_UMBRELLA=1', '-ftrapv', '-D_GLIBCXX_ASSERTIONS'], tag='gcc-O0-gnu++17-umbrella-trapv'), cfg('g++', '-O2'), cfg('clang++', '-O2', 'gnu++17', extra=['-DNDEBUG', '-funsigned-char'], tag='clang-O2-gnu++17-ndebug-uchar'),
-              cfg('g++', '-O2', 'c++20', extra=FORCE_CE, tag='gcc-O2-c++20-ce')]
+QUICK_CFGS = [cfg('g++', '-O0', 'gnu++17', extra=['-DVERIF_UMBRELLA=1', '-ftrapv', '-D_GLIBCXX_ASSERTIONS'], tag='gcc-O0-gnu++17-umbrella-trapv'), cfg('g++', '-O2'), cfg('clang++', '-O2', 'gnu++17', extra=['-DNDEBUG', '-funsigned-char', '-fno-math-errno'], tag='clang-O2-gnu++17-ndebug-uchar-nomatherrno'),
+              cfg('g++', '-O2', 'c++20', extra=FORCE_CE + ['-march=native'], tag='gcc-O2-c++20-ce-native')]
 # the abacus configuration is also the GNU-dialect, -march=native (LZCNT/BMI/AVX2 builtins selected by feature macros) one
 ABACUS_QUICK = [cfg('g++', '-O2', 'gnu++17', abacus=True, extra=['-march=native'], tag='gcc-O2-gnu++17-abacus-native')]
 
@@ -79,6 +81,8 @@ def thorough_cfgs():
         out.append(cfg(cc, '-O3', 'c++17', extra=['-march=native'], tag=f"{'gcc' if cc == 'g++' else 'clang'}-O3-c++17-native"))
         out.append(cfg(cc, '-O1', 'c++20', extra=FORCE_CE, tag=f"{'gcc' if cc == 'g++' else 'clang'}-O1-c++20-ce"))
         out.append(cfg(cc, '-O1', 'gnu++20', extra=['-funsigned-char'], tag=f"{'gcc' if cc == 'g++' else 'clang'}-O1-gnu++20-uchar"))
+        out.append(cfg(cc, '-O2', 'c++17', extra=['-fno-math-errno'], tag=f"{'gcc' if cc == 'g++' else 'clang'}-O2-c++17-nomatherrno"))
+        out.append(cfg(cc, '-O2', 'c++20', extra=['-march=native'], tag=f"{'gcc' if cc == 'g++' else 'clang'}-O2-c++20-native"))
     return out
 
 
@@ -93,6 +97,12 @@ NEEDS_ABACUS = {'C08', 'C12', 'C13', 'C14'}
 INTEGER_ONLY = {'C01', 'C02', 'C03', 'C06', 'C09', 'C10', 'C11', 'C15', 'C17', 'C18', 'C19'}
 
 
+# properties with floating-point inputs or intermediates whose judged behaviour on finite doubles does not rely on IEEE NaN/inf
+# handling: a -ffast-math build is judged on what such a build still promises (C05: finite inputs only; C13: sqrt of a negative
+# through std::sqrt is skipped, it relies on a double NaN; C12 asin/acos domain test and C14 hypot never produce a double NaN)
+FINITE_FASTMATH = {'C05', 'C12', 'C13', 'C14'}
+
+
 def configs_for(prop, tier):
     if tier == 'quick':
         c = list(QUICK_CFGS)
@@ -100,7 +110,7 @@ def configs_for(prop, tier):
             c += ABACUS_QUICK
         if prop in INTEGER_ONLY:
             c += [cfg('g++', '-Os', 'c++20', extra=['-ffast-math'], tag='gcc-Os-c++20-fastmath')]
-        if prop == 'C05':   # finite inputs only are judged in this configuration (props_conv.cc)
+        if prop in FINITE_FASTMATH:
             c += [cfg('g++', '-O2', 'c++20', extra=['-ffast-math'], tag='gcc-O2-c++20-fastmath')]
         if prop == 'C08':
             c += [cfg('clang++', '-O0', 'c++20'), cfg('g++', '-O3', 'c++2b')]
@@ -110,6 +120,8 @@ def configs_for(prop, tier):
             c += abacus_thorough()
         if prop in INTEGER_ONLY:
             c += [cfg('g++', '-Os', 'c++20', extra=['-ffast-math'], tag='gcc-Os-c++20-fastmath'), cfg('clang++', '-Oz', 'c++17', extra=['-ffast-math'], tag='clang-Oz-c++17-fastmath')]
+        if prop in FINITE_FASTMATH:
+            c += [cfg('g++', '-O2', 'c++20', extra=['-ffast-math'], tag='gcc-O2-c++20-fastmath')]
     return c
 
 
